@@ -8,11 +8,10 @@ from vlib import engine, gen, kal, oracle
 ID = "C14"
 RULE = ("Input A (nucleotide over ACGTUN or protein over 20 aa + BZX, generated families / unrelated / degenerate sets, any case) and "
         "A' = A with a generated mask: each residue's case flipped with drawn probability and, for nucleotides, T<->U swapped "
-        "with drawn probability (plus 'all lower', 'all upper', 'all T->U' masks); same type/penalties/threads; array and file "
-        "API, the latter with distinct, all-equal or pooled record names; "
-        "API. Oracle: the gap pattern of every row is identical in both runs and the letters of A' rows are A' letters. "
+        "with drawn probability (plus 'all lower', 'all upper', 'all T->U' and class-wise masks: one class of letters lower, the rest upper, and vice versa); same type/penalties/threads; array and file "
+        "API, the latter with distinct, all-equal or pooled record names and the records in one file or split over 2..3 files. Oracle: the gap pattern of every row is identical in both runs and the letters of A' rows are A' letters. "
         "Non-trivial = mask changes >= 1 residue and the result has gaps; distinct by hash of the case.")
-ASSUMPTIONS = ["pairs whose detected kind differs between A and A' are discarded and counted (kind detection is C13's subject)"]
+ASSUMPTIONS = ["pairs whose detected kind differs between A and A' are discarded and counted only when the residues satisfy neither premise of C13 (there the kind is not defined); otherwise the rows are compared as usual"]
 BUDGET = {"quick": dict(examples=500, workers=12, seconds=75), "thorough": dict(examples=1200, workers=16, seconds=600)}
 
 
@@ -25,7 +24,12 @@ def apply_mask(seqs, kind, mode, pcase, ptu, seed):
             if kind == "dna" and ptu > 0 and c.upper() in "TU" and (mode == "alltu" or rnd.random() < ptu):
                 nc = {"T": "U", "U": "T", "t": "u", "u": "t"}[c]
                 c = nc
-            if mode == "lower":
+            if mode == "classlower" or mode == "classupper":
+                # one class of letters in one case, all the others in the other case (nucleotide: ACGTU vs the rest;
+                # protein: the letters that occur only in proteins vs the rest)
+                incls = (c.upper() in "ACGTU") if kind == "dna" else (c.upper() in gen.PROT_ONLY)
+                c = c.lower() if incls == (mode == "classlower") else c.upper()
+            elif mode == "lower":
                 c = c.lower()
             elif mode == "upper":
                 c = c.upper()
@@ -42,14 +46,16 @@ def cases(draw, tier):
     ss = draw(gen.seqsets(max_n=40 if not big else 120, max_len=300 if not big else 900))
     if ss["kind"] is None:
         ss = dict(ss, kind="protein" if any(c.upper() in gen.PROT_ONLY for s in ss["seqs"] for c in s) else "dna")
-    mode = draw(st.sampled_from(["random", "random", "lower", "upper", "alltu"]))
+    mode = draw(st.sampled_from(["random", "random", "random", "lower", "upper", "alltu", "classlower", "classupper"]))
     cfg = {"type": draw(gen.types_for(ss["kind"])), "threads": draw(gen.threads)}
     cfg["gpo"], cfg["gpe"], cfg["tgpe"] = draw(gen.penalties())
     return {"seqs": ss["seqs"], "kind": ss["kind"], "mode": mode,
             "pcase": draw(st.sampled_from([0.0, 0.05, 0.5, 1.0])), "ptu": draw(st.sampled_from([0.0, 0.1, 0.5, 1.0])),
             "mask_seed": draw(st.integers(0, 2 ** 32 - 1)), "cfg": cfg, "entry": draw(st.sampled_from(["arr", "file"])),
             # the property does not ask for distinct names: records may share a name (all equal / a pool of two)
-            "name_mode": draw(st.sampled_from(["distinct", "distinct", "all_equal", "pool2"]))}
+            "name_mode": draw(st.sampled_from(["distinct", "distinct", "all_equal", "pool2"])),
+            # file API: the records in one file or split over 2..3 files (unequal parts) read into one object
+            "nfiles": draw(st.sampled_from([1, 1, 2, 3])), "split_seed": draw(st.integers(0, 2 ** 16))}
 
 
 def strategy(tier):
@@ -67,8 +73,8 @@ def check(case):
     try:
         if case["entry"] == "arr":
             ka, kb = kal.biotype_of(a), kal.biotype_of(b)
-            if ka != kb:
-                return engine.discard("detected kind differs between spellings (C13)")
+            if ka != kb and kind is None:
+                return engine.discard("detected kind differs between spellings of residues that satisfy neither C13 premise")
             ra = kal.align_arr(a, cfg)
             rb = kal.align_arr(b, cfg)
         else:
@@ -76,10 +82,19 @@ def check(case):
             names = ["s%d" % i for i in range(len(a))] if nm == "distinct" else (["seq"] * len(a) if nm == "all_equal"
                                                                                   else ["seq%d" % (i % 2) for i in range(len(a))])
             cl.append("names=" + nm)
-            ra = kal.align_named(names, a, cfg)
-            rb = kal.align_named(names, b, cfg)
-            if ra["biotype"] != rb["biotype"]:
-                return engine.discard("detected kind differs between spellings (C13)")
+            cuts = list(case["cuts"]) if case.get("cuts") else kal.split_points(len(a), case.get("nfiles", 1), case.get("split_seed", 0))
+            bounds = [0] + cuts + [len(a)]
+            if cuts and (kind is None or any(gen.expected_kind(a[p:q]) != kind for p, q in zip(bounds, bounds[1:]))):
+                cuts = []      # kalign refuses to merge files it takes for different kinds: only parts that each carry the kind
+            if cuts:
+                cl.append("files=%d" % (len(cuts) + 1))
+                ra = kal.align_named_files(names, a, cfg, cuts)
+                rb = kal.align_named_files(names, b, cfg, cuts)
+            else:
+                ra = kal.align_named(names, a, cfg)
+                rb = kal.align_named(names, b, cfg)
+            if ra["biotype"] != rb["biotype"] and kind is None:
+                return engine.discard("detected kind differs between spellings of residues that satisfy neither C13 premise")
     except kal.Failure as f:
         if f.ended.kind == "hang":
             return engine.discard("cpu-limit (inconclusive; hangs are judged by C05)")
@@ -100,3 +115,32 @@ def check(case):
     nt = changed > 0 and oracle.has_gap(ra["rows"])
     return engine.ok(nt, cl, {"A": [s[:40] for s in a[:3]], "A'": [s[:40] for s in b[:3]], "cfg": cfg, "changed": changed,
                               "rows": [r[:50] for r in ra["rows"][:3]]})
+
+
+# ------------------------------------------------------------------ enumerated: class-wise case x several files
+
+def extra(tier, seed, stats):
+    """For every letter x that occurs only in proteins: a family over {x, A, C, G, T} with about 30 % x, the first (short)
+    record in one file and the others in a second file; A all upper case, A' with x lower / the rest upper and vice versa."""
+    from concurrent.futures import ThreadPoolExecutor
+    out = []
+    cases_ = []
+    for i, x in enumerate(sorted(gen.PROT_ONLY)):
+        rnd = random.Random(seed * 131 + i)
+        alpha = x * 3 + "ACGT" + "ACG"[i % 3]
+        fam = gen.expand_family(rnd.randrange(2 ** 32), alpha, 6, 70, 0.15, 0.06, 0.0)
+        first = (x + fam[0][:9])[:10]
+        seqs = [first] + fam
+        if gen.expected_kind(seqs) != "protein" or gen.expected_kind([first]) != "protein" or gen.expected_kind(fam) != "protein":
+            continue
+        for mode in ("classlower", "classupper", "lower"):
+            cases_.append({"seqs": seqs, "kind": "protein", "mode": mode, "pcase": 0.0, "ptu": 0.0, "mask_seed": 0,
+                           "cfg": {"type": 5, "threads": 1, "gpo": -1.0, "gpe": -1.0, "tgpe": -1.0}, "entry": "file", "name_mode": "distinct",
+                           "nfiles": 2, "cuts": [1]})
+    with ThreadPoolExecutor(max_workers=12) as ex:
+        res = list(ex.map(check, cases_))
+    for c, r in zip(cases_, res):
+        stats.record(c, r)
+        if r["status"] == "violation":
+            out.append({"case": c, "detail": r["detail"], "kind": r.get("kind")})
+    return out
